@@ -352,6 +352,23 @@ def gen_pinned_near_end(rng):
     return s
 
 
+def gen_pinned_at_end_within_tolerance(rng):
+    """a bar pinned at both ends whose loads are forces the code identifies with an end (within 1e-10 of it) without
+    being written as 0 or 1: an axial member - each force belongs to the end it is next to"""
+    s = gen_single_bar(rng)
+    b = s.bars[0]
+    b["l1"], b["l2"] = LINKS["pin"], LINKS["pin"]
+    near1 = Fr(rng.choice(["0.99999999999", "0.9999999999999999", "0.99999999995"]))
+    near0 = Fr(rng.choice(["0.00000000001", "0.00000000005", "3e-12"]))
+    s.loads = [{"kind": "c", "term": rng.choice(["fx", "fy"]), "local": rng.random() < 0.5, "bar": b["id"], "t": near1, "v": Fr(rng.choice([-400, 250]))}]
+    if rng.random() < 0.6:
+        s.loads.append({"kind": "c", "term": rng.choice(["fx", "fy"]), "local": rng.random() < 0.5, "bar": b["id"], "t": near0, "v": Fr(rng.choice([90, -35]))})
+    if rng.random() < 0.4:
+        s.loads.append({"kind": "c", "term": "fy", "local": True, "bar": b["id"], "t": Fr(1), "v": Fr(120)})
+    s.meta = {"kind": "pinned-at-end-within-tolerance"}
+    return s
+
+
 def with_unused_node(s, rng):
     """a node no bar starts or ends at (left over after a bar was removed): valid input, part of the structure"""
     xs = [x for x, y, c in s.nodes.values()]
